@@ -106,7 +106,12 @@ impl Group for Negotiation {
                 // z = zeros, r = a regular pattern, n = noise (incompressible: the encoded form is as large as the body,
                 // far beyond any internal buffer of the encoders)
                 let seed = *rng.pick(&["z", "r", "n", "n"]);
-                let ty = if rng.chance(1, 2) { *rng.pick(&["text/html", "application/json", "image/svg+xml", "text/plain; charset=utf-8"]) } else { *rng.pick(&TYPES) };
+                // one case in five: a class x subtype cross product — whether a type is compressed is decided by its class
+                // (image, font, audio, video: never; `image/svg…` excepted), whatever the subtype says
+                let ty: String = if rng.chance(1, 5) {
+                    format!("{}/{}", rng.pick(&["text", "application", "image", "audio", "video", "font", "model"]),
+                        rng.pick(&["html", "json", "xml", "javascript", "wasm", "octet-stream", "graphql", "svg+xml", "svg", "png", "mpeg", "woff2", "zip", "zstd", "pdf", "plain"]))
+                } else if rng.chance(1, 2) { (*rng.pick(&["text/html", "application/json", "image/svg+xml", "text/plain; charset=utf-8"])).to_owned() } else { (*rng.pick(&TYPES)).to_owned() };
                 let ae = if rng.chance(1, 8) { "none".to_owned() } else if rng.chance(1, 4) { hex(rng.pick(&["br", "gzip", "zstd", "br, gzip;q=0", "gzip, br;q=0", "zstd;q=0, br", "identity", "br;q=0.5, identity;q=0"]).as_bytes()) } else { hex(gen_ae(rng).as_bytes()) };
                 let pref = *rng.pick(&["zstd", "br", "gzip"]);
                 let hc = b01(!rng.chance(1, 6));
@@ -248,6 +253,14 @@ impl Group for Negotiation {
         }
         if let Some(enc) = out.strip_prefix("200 ") {
             if enc != "identity" {
+                // already-compressed media types are sent as identity: images (svg excepted), fonts, audio, video — read
+                // off the raw content type, whatever its subtype
+                let ty = String::from_utf8_lossy(&unhex(p[3]).unwrap()).to_ascii_lowercase();
+                let (class, sub) = ty.split_once('/').unwrap_or((&ty, ""));
+                let sub = sub.split(';').next().unwrap_or("").trim();
+                if matches!(class, "font" | "audio" | "video") || (class == "image" && !sub.starts_with("svg")) {
+                    return Some((format!("media-class:{line}"), format!("a body of type `{ty}` (a class that is never compressed) was sent with content-encoding {enc}")));
+                }
                 // must be listed by the client with a non-zero quality (independent check on the raw header)
                 let ae = if p[4] == "none" { String::new() } else { String::from_utf8_lossy(&unhex(p[4]).unwrap()).into_owned() };
                 // an item forbids its coding only if it is a well-formed `coding OWS ; OWS q=0[.000]` (RFC 9110 weight
